@@ -38,6 +38,8 @@ Verdict(ev) ==
          ELSE IF ev.validate \notin Allowed(ev) THEN "reencoding-invalidates"
          ELSE "ok"
     ELSE IF ~ev.parse THEN "ok"                                     \* refused outright: evident
+    \* the same text read into a value that already held the original envelope must give the same document
+    ELSE IF ev.reuse = "differs" THEN "edit-hidden-when-read-into-held-envelope"
     ELSE IF ev.changed /\ ev.validate = "ok" THEN "edit-not-evident"
     \* an altered value or reordered array that the parser silently undoes (the text said something else than
     \* what was digested) - members that are derived (regime) or unknown to the type are legitimately dropped
